@@ -276,8 +276,10 @@ def finish(ctx, level_rule, samples, evaluations, distinct_nontrivial, extra=Non
         cov.update(extra)
     ev = dict(property_id=ctx.prop, tier=ctx.tier, seed=ctx.seed, level='proof', coverage=cov,
               assumptions=assumptions or [], wall_s=round(time.time() - ctx.t0, 2), violations=len(ctx.violations))
-    os.makedirs(os.path.join(ROOT, 'evidence'), exist_ok=True)
-    with open(os.path.join(ROOT, 'evidence', ctx.prop + '.json'), 'w') as f:
+    # evidence under /verif/evidence describes /repo only: a run pointed at a scratch copy (seeded/try.sh) leaves its evidence in that copy
+    evdir = os.path.join(ROOT, 'evidence') if os.path.realpath(REPO) == os.path.realpath('/repo') else os.path.join(REPO, '.verif-evidence')
+    os.makedirs(evdir, exist_ok=True)
+    with open(os.path.join(evdir, ctx.prop + '.json'), 'w') as f:
         json.dump(ev, f, indent=1, default=repr)
     for sig, desc in ctx.known:
         print('KNOWN-FINDING: property=%s %s [%s]' % (ctx.prop, desc, sig))
